@@ -377,7 +377,7 @@ func wxSerialiseTo(sb *strings.Builder, j *wJ, ws string, depth int) error {
 	case "null":
 		sb.WriteString("null")
 	case "raw":
-		sb.WriteString(wireAnyJSON)
+		sb.WriteString(wireAnyCur)
 	case "rawempty":
 		sb.WriteString("{}")
 	case "str", "num", "bool":
